@@ -15,7 +15,7 @@ if [ "$VALIDATE" = "1" ]; then
   PYTHONPATH=$WT /venv/bin/python -m pytest -q -p no:cacheprovider -x 2>&1 | tail -1
 fi
 for c in "$@"; do
-  MC_REPO=$WT /verif/check $c ${TIER:+--tier $TIER} > /tmp/wt/last_$c.log 2>&1; rc=$?
+  MC_REPO=$WT timeout 1500 /verif/check $c ${TIER:+--tier $TIER} > /tmp/wt/last_$c.log 2>&1; rc=$?
   echo "check $c: exit $rc  $(grep -c '^VIOLATION' /tmp/wt/last_$c.log) violation line(s); $(grep -m1 -A1 '^VIOLATION' /tmp/wt/last_$c.log | tail -1 | cut -c1-200)"
 done
 git checkout -q -- teaal
